@@ -187,7 +187,12 @@ CHECKS = {
  "C16": {"ref": "5/C16", "technique": "Lean 4 proof at token level (printed terms = permutation of the non-zero terms, elision faithful, order = selected monomial order) + text-level correspondence with an independent reader",
          "text": "printed_terms_den / tokens_den: for every display setting the printed terms are a permutation of the stored "
                  "terms without the zero ones, so reading the tokens back gives the polynomial; elision_faithful (1/-1 elided "
-                 "only in front of a monomial); printed_order (order follows the selected monomial order). `_partial`: the "
+                 "only in front of a monomial); printed_order (order follows the selected monomial order); text level (PrintText, default "
+                 "display strings): text_reads_tokens_codec - for every coefficient codec whose texts are safe tokens (optional minus, "
+                 "no + - * inside, not starting with q, read back by the codec) the proved reader applied to the proved printer's text "
+                 "returns exactly the printed terms; int_codec_lawful; text_roundtrip / text_roundtrip_zero for integers under all 8 "
+                 "display orders; the run checks the codec contract on the float / integer coefficient texts really written. "
+                 "`_partial`: outside that (exponent notation, complex, other display strings) the "
                  "theorem stops at tokens; that the *text* parses back is checked by an independent recursive-descent reader "
                  "on str(p) and repr(p) for all 8 display orders x exponent/multiply signs x int/+-1/float/complex/bool "
                  "coefficients, and str(p) must equal the Lean printer's rendering; to_sympy round trip for 0-d polynomials.",
